@@ -21,8 +21,9 @@ def _c(a):
     return a.copy() if hasattr(a, 'copy') else a
 
 
-def entries(pym, seed, thorough=False):
-    """generate the list of zoo entries (deterministic in seed)"""
+def entries(pym, seed, thorough=False, extra=()):
+    """generate the list of zoo entries (deterministic in seed); `extra`: names of additional families appended AFTER the
+    standard zoo (the standard entries and their random stream do not depend on it): 'eig_sparse'"""
     rng = np.random.default_rng(seed)
     E = []
 
@@ -499,6 +500,53 @@ def entries(pym, seed, thorough=False):
     reps = 3 if thorough else 1
     for _ in range(reps):
         one_rep()
+
+    def eig_sparse_family():
+        """sparse EigenSolve, standard and generalised, several nmodes (1 .. default 6), shifts, hermitian given / detected,
+        tridiagonal pencils with well separated spectra and one finite-element pencil (stiffness / mass of a clamped plate)"""
+        def pencil(n):
+            kd = 2.0 + rng.random(n) + 0.35 * np.arange(n)
+            ko = -(0.5 + 0.4 * rng.random(n - 1))
+            md = 1.0 + rng.random(n)
+            mo = 0.1 * rng.random(n - 1)
+            return (sps.diags([ko, kd, ko], [-1, 0, 1], format='csc'), sps.diags([mo, md, mo], [-1, 0, 1], format='csc'))
+
+        def tdirs(r, n, withB):
+            def one():
+                d0, d1 = r.standard_normal(n), r.standard_normal(n - 1)
+                return sps.diags([d1, d0, d1], [-1, 0, 1], format='csc')
+            return [one(), 0.2 * one()] if withB else [one()]
+        cfgs = [(False, dict(nmodes=1)), (False, dict(nmodes=2, sigma=0.3)), (False, dict(nmodes=4)), (False, dict()),
+                (True, dict(nmodes=1, sigma=0.5)), (True, dict(nmodes=3)), (True, dict(nmodes=5, sigma=0.5)), (True, dict())]
+        if not thorough:
+            cfgs = [c for i, c in enumerate(cfgs) if i not in (0, 4)] + [cfgs[int(rng.integers(0, 2)) * 4]]
+        for i, (withB, kw) in enumerate(cfgs):
+            n = int(rng.integers(9, 14))
+            K, M = pencil(n)
+            herm = dict(hermitian=True) if i % 3 else {}
+            add('EigenSolve', dict(n=n, kind='sparse symmetric' + (' generalized' if withB else '') + ' (family)', **kw, **herm),
+                lambda si, so, kw=dict(kw, **herm): pym.EigenSolve(si, so, **kw), [K, M] if withB else [K], nout=2,
+                dirs=(lambda r, n=n, withB=withB: tdirs(r, n, withB)), tol=1e-4, h=1e-4)
+        # finite-element pencil
+        d = pym.DomainDefinition(3, 4)
+        nl = d.get_nodenumber(0, np.arange(d.nely + 1))
+        bc = np.concatenate([2 * nl, 2 * nl + 1])
+        sx = pym.Signal('x', 0.5 + 0.4 * rng.random(d.nel))
+        mK = pym.AssembleStiffness(sx, domain=d, bc=bc)
+        mM = pym.AssembleMass(sx, domain=d, bc=bc, ndof=2, bcdiagval=1e-3)
+        mK.response()
+        mM.response()
+        Kf, Mf = sps.csc_matrix(mK.sig_out[0].state), sps.csc_matrix(mM.sig_out[0].state)
+        nf = Kf.shape[0]
+
+        def fdirs(r, Kf=Kf, Mf=Mf, nf=nf):
+            return [0.1 * float(r.standard_normal()) * Kf + sps.diags([0.1 * r.standard_normal(nf)], [0], format='csc'),
+                    0.05 * float(r.standard_normal()) * Mf]
+        for kw in ((dict(nmodes=4, hermitian=True),) if not thorough else (dict(nmodes=4, hermitian=True), dict(hermitian=True), dict(nmodes=3, sigma=0.01))):
+            add('EigenSolve', dict(n=nf, kind='sparse symmetric generalized (family, finite-element pencil)', **kw),
+                lambda si, so, kw=kw: pym.EigenSolve(si, so, **kw), [Kf, Mf], nout=2, dirs=fdirs, tol=1e-4, h=1e-4)
+    if 'eig_sparse' in extra:
+        eig_sparse_family()
     return E
 
 
@@ -938,6 +986,193 @@ def seed_support_sequences(entry, pym, rng):
     return fails
 
 
+class KnownFirstVisit(Exception):
+    """an exception of a documented known finding, raised on the first visit of a seed support after a response()"""
+
+
+def _is_sparse_eig(entry):
+    return entry['name'] == 'EigenSolve' and 'sparse' in str(entry['cfg'].get('kind', ''))
+
+
+def support_family(k):
+    """deliberately chosen index supports over an axis of length k: first, last, even and odd positions, all but the first, all"""
+    fam = [[0], [k - 1], list(range(0, k, 2)), list(range(1, k, 2)), list(range(1, k)), list(range(k))]
+    out = []
+    for f in fam:
+        if f and f not in out:
+            out.append(f)
+    return out
+
+
+def column_support_sequences(entry, pym, rng, variant=0):
+    """seeds whose support along the LAST axis of every array output (columns of a matrix of eigenvectors / right-hand
+    sides, entries of a vector of eigenvalues) differs between successive sensitivity() calls that follow ONE response():
+    one history on ONE instance in which every ordered pair of supports of `support_family` occurs in consecutive calls;
+    with reset() between the passes every pass must add what a FRESH instance adds for the same seeds, an occasional
+    response() in between changes nothing; without reset the contributions add up; then every support is seeded once (so
+    that whatever the module keeps per column exists), the inputs move to a second design, response(), and passes with
+    different supports must again give what a fresh instance at the second design gives.
+    variant 0: every output seeded (restricted to the support); variant 1: only the last array output is seeded, the
+    others are None.
+    An exception counts as a failure unless it is the text of known finding K02 (SuperLU: Factor is exactly singular) of a
+    sparse EigenSolve raised while a column is visited for the FIRST time after a response() (only then A - lam_i*B is
+    factorised on the unchanged library): raises KnownFirstVisit, the caller retries with a new instance."""
+    fails = []
+    nout = entry.get('nout', 1)
+    tol = max(entry.get('xtol', 1e-9), 1e-9)
+    m0, ins0, outs0 = entry['build']()
+    m0.response()
+    shapes = [np.shape(dense(s.state)) for s in outs0]
+    maskable = [j for j, shp in enumerate(shapes) if len(shp) >= 1 and shp[-1] >= 2 and int(np.prod(shp)) <= 4096]
+    if not maskable:
+        return fails
+    full = make_seeds(outs0, rng, pym)
+    kmax = max(shapes[j][-1] for j in maskable)
+    fam = support_family(kmax)
+    jlast = maskable[-1]
+
+    def seeds_for(S, fac=1.0):
+        ws = []
+        for j in range(nout):
+            if variant == 1 and j != jlast:
+                ws.append(None)
+            elif j in maskable:
+                k = shapes[j][-1]
+                idx = sorted(set(min(i, k - 1) for i in S)) if kmax != k else S
+                w = np.zeros_like(np.asarray(full[j]))
+                w[..., idx] = np.asarray(full[j])[..., idx]
+                ws.append(w * fac)
+            else:
+                ws.append(_c(full[j]) * fac)
+        return ws
+
+    def install(outs, ws):
+        for s, w in zip(outs, ws):
+            s.sensitivity = None if w is None else _c(w)
+    visited = set()
+
+    def call(fn, S, what):
+        try:
+            return fn()
+        except Exception as ex:  # noqa
+            first = not set(S) <= visited
+            if _is_sparse_eig(entry) and first and 'exactly singular' in str(ex):
+                raise KnownFirstVisit(str(ex))
+            fails.append(('sensitivity() completes in a history of seed supports as it does on a fresh instance',
+                          dict(step=what, support=list(S), first_visit_after_response=first, error=f'{type(ex).__name__}: {str(ex)[:300]}')))
+            return 'failed'
+
+    def fresh_refs(inputs):
+        ref = {}
+        for fi, S in enumerate(fam):
+            m, ins, outs = entry['build']()
+            if inputs is not None:
+                for s_, x_ in zip(ins, inputs):
+                    if x_ is not None:
+                        s_.state = _c(x_)
+            m.response()
+            ref['states'] = [snapshot(s_.state) for s_ in outs]
+            install(outs, seeds_for(S))
+            try:
+                m.sensitivity()
+            except Exception as ex:  # noqa
+                if _is_sparse_eig(entry) and 'exactly singular' in str(ex):
+                    raise KnownFirstVisit(str(ex))
+                raise
+            ref[fi] = _sens_snap(ins)
+        return ref
+
+    def agree(a, b):
+        return all(((x is None and y is None) or close(x, y, tol)) for x, y in zip(a, b))
+    ref = fresh_refs(None)
+    m, ins, outs = entry['build']()
+    m.response()
+    prev = None
+    seq = pair_covering_sequence(len(fam))
+    for step, fi in enumerate(seq):
+        S = fam[fi]
+        install(outs, seeds_for(S))
+        if call(m.sensitivity, S, f'pass {step} (reset between passes)') == 'failed':
+            return fails
+        visited.update(S)
+        if not agree(ref[fi], _sens_snap(ins)):
+            fails.append(('the added sensitivities are a function of the current seeds only, whatever columns were seeded in earlier calls',
+                          dict(support=S, previous_support=prev, step=step, variant=variant)))
+            return fails
+        prev = S
+        m.reset()
+        if step % 5 == 4:
+            m.response()
+            visited.clear()
+    # without reset: the output seeds are replaced, the input sensitivities accumulate
+    m.response()
+    visited.clear()
+    acc = None
+    for step, fi in enumerate(seq[:6]):
+        S = fam[fi]
+        fac = float(step + 1)
+        install(outs, seeds_for(S, fac))
+        if call(m.sensitivity, S, f'pass {step} (no reset)') == 'failed':
+            return fails
+        visited.update(S)
+        add = [None if r is None else ('ar', fac * r[1]) for r in ref[fi]]
+        acc = add if acc is None else [(y if x is None else x if y is None else ('ar', x[1] + y[1])) for x, y in zip(acc, add)]
+        if not agree(acc, _sens_snap(ins)):
+            fails.append(('sensitivity() calls without reset add up, also when the seeds of successive calls live on different columns',
+                          dict(support=S, step=step, variant=variant)))
+            return fails
+    m.reset()
+    # second design: whatever was stored per column at the first design must not be used at the second one
+    install(outs, seeds_for(fam[-1]))
+    if call(m.sensitivity, fam[-1], 'all columns at the first design') == 'failed':
+        return fails
+    m.reset()
+    base = [_c(x) for x in entry['ins']]
+    dirs = entry['dirs'](rng)
+    rep = entry.get('rep_of') or list(range(len(base)))
+    moved = []
+    for i, (x, v) in enumerate(zip(base, dirs)):
+        if rep[i] != i:
+            moved.append(None)
+        elif v is None:
+            moved.append(x)
+        elif sps.issparse(x):
+            moved.append((x + 0.03 * v).asformat(x.format))
+        else:
+            moved.append(x + 0.03 * v)
+    try:
+        ref2 = fresh_refs(moved)
+    except KnownFirstVisit:
+        raise
+    except Exception:  # noqa   the second point is not admissible for this configuration: nothing to compare
+        return fails
+    for s_, x_ in zip(ins, moved):
+        if x_ is not None:
+            s_.state = _c(x_)
+    m.response()
+    visited.clear()
+    if not agree(ref2['states'], [snapshot(s_.state) for s_ in outs]):
+        # the module remembers something of its first evaluation by design (e.g. Scaling fixes its factor at the first
+        # response): a fresh instance at the second design is no reference for it
+        return fails
+    order = list(range(len(fam)))
+    if variant == 1:
+        order = order[::-1]
+    for step, fi in enumerate(order + order[:2]):
+        S = fam[fi]
+        install(outs, seeds_for(S))
+        if call(m.sensitivity, S, f'second design, pass {step}') == 'failed':
+            return fails
+        visited.update(S)
+        if not agree(ref2[fi], _sens_snap(ins)):
+            fails.append(('after the inputs changed and response() ran, the added sensitivities are those of a fresh instance at the new inputs',
+                          dict(support=S, step=step, variant=variant)))
+            return fails
+        m.reset()
+    return fails
+
+
+
 def protocol_check(entry, pym, rng):
     """C04 clauses on the implementation. Returns list of (predicate, detail) failures."""
     fails = []
@@ -1011,6 +1246,8 @@ def protocol_check(entry, pym, rng):
     run([w1], twice=True)
     fails.extend(seed_layout_check(entry, pym, w1, g1))
     fails.extend(seed_support_sequences(entry, pym, rng))
+    for variant in ((0, 1) if entry.get('nout', 1) > 1 else (0,)):
+        fails.extend(column_support_sequences(entry, pym, rng, variant))
     # seeds are not modified by sensitivity() in a way that changes a repeated call (covered above) and
     # unseeded sensitivity() is a no-op
     m, ins, outs = entry['build']()
